@@ -437,7 +437,9 @@ func (c *Check) Finish() int {
 	}
 	b, _ := json.MarshalIndent(ev, "", " ")
 	os.MkdirAll(filepath.Join(c.VerifDir, "evidence"), 0o755)
-	if err := os.WriteFile(filepath.Join(c.VerifDir, "evidence", c.ID+".json"), b, 0o644); err != nil {
+	// an auxiliary sub-run of a check (own build, e.g. the schedule-exploration part of C24) writes
+	// its own file; the driver merges it into the property's evidence file
+	if err := os.WriteFile(filepath.Join(c.VerifDir, "evidence", c.ID+os.Getenv("VERIF_EVIDENCE_SUFFIX")+".json"), b, 0o644); err != nil {
 		lines = append(lines, "HARNESS-ERROR cannot write evidence: "+err.Error())
 		exit = 2
 	}
